@@ -215,7 +215,7 @@ where
         height: u32,
     ) -> Result<(), SPI::Error> {
         self.wait_until_idle(spi, delay)?;
-        self.set_ram_area(spi, x, y, x + width, y + height)?;
+        self.set_ram_area(spi, x, y, x + width - 1, y + height - 1)?;
         self.set_ram_counter(spi, delay, x, y)?;
 
         self.interface
@@ -314,8 +314,8 @@ where
         end_x: u32,
         end_y: u32,
     ) -> Result<(), SPI::Error> {
-        assert!(start_x < end_x);
-        assert!(start_y < end_y);
+        assert!(start_x <= end_x);
+        assert!(start_y <= end_y);
 
         // x is positioned in bytes, so the last 3 bits which show the position inside a byte in the ram
         // aren't relevant
